@@ -112,6 +112,7 @@ EpochManager::ForwardGlobalEpoch()
 
   // update protected epoch values
   auto &protected_epochs = ProtectedNode::GetProtectedEpochs(next_epoch, protected_lists_);
+  std::atomic_thread_fence(std::memory_order_seq_cst);  // pairs with the fence in EnterEpoch
   CollectProtectedEpochs(cur_epoch, protected_epochs);
   RemoveOutDatedLists(protected_epochs);
 
